@@ -48,7 +48,9 @@ def cfg(maxf=None, minf=None, maxi=10, mini=-10, pnew=0.001, maxpts=25):
     return c
 
 
-BINDS = {0: [], 1: [("X", Z(1))],
+# tables 11 / 15 have the SIZE of tables 1 / 5 and other names (a cache keyed on the size would confuse them)
+BINDS = {0: [], 1: [("X", Z(1))], 11: [("Y", B(False))],
+         15: [("P1", Z(1)), ("P2", Z(2)), ("P3", L()), ("P4", B(True)), ("P5", Z(5))],
          5: [("X", Z(1)), ("alpha", B(True)), ("b-c", L(Z(1), I("INTEGER.+"))), ("Q9", L()), ("INTEGER.FOO", Z(7))]}
 
 
